@@ -151,8 +151,10 @@ pub fn gen(tier: &str, seed: u64, outdir: &str) {
     let mut long: Vec<(Tm, String)> = vec![];
     let maps = all_maps();
     // 0. long vectors (thorough): random lengths up to 1e4 through a sample of forms; queued and spread over the shards
-    if thorough {
-        for it in 0..60 {
+    {
+        // (coverage audit: the quick tier draws four of these too -- one of them up to 1e4 -- so that "random lengths up to 1e4" is
+        //  reached by every run, not only by the thorough tier)
+        for it in 0..(if thorough { 60 } else { 4 }) {
             let n = 41 + r.below(if it % 12 == 0 { 10_000 } else { 900 }) as usize;
             let t = it % 4;
             let (a, b) = (vals(&mut r, n, Mode::Reals), vals(&mut r, n, Mode::Reals));
@@ -179,6 +181,19 @@ pub fn gen(tier: &str, seed: u64, outdir: &str) {
                 let x = Vector::new(a.clone());
                 let res = catch(|| vm(&x).v);
                 lq(&mut long, app("CVecMap", vec![raw(name), fl(&a), libm_table(&tb), outcome_list(&res)]), "long/map", true);
+                // the other reductions at this length (free function / Vector method alternately); log-domain inputs shifted far out
+                let mut al = vals(&mut r, n, Mode::Reals);
+                let sh = [0.0, 700.0, -700.0, 1e300][it % 4]; for x in al.iter_mut() { *x += sh; }
+                for k in [2usize, 4, 5] {
+                    let v = if k == 2 { &a } else { &al };
+                    crate::libm::start();
+                    let res = run_red(k, it % 2, v);
+                    let t = crate::libm::stop();
+                    lq(&mut long, app("CRed", vec![raw(REDS[k]), Tm::Nat((it % 2) as u64), fl(v), libm_table(&t), outcome_list(&res)]), &format!("long/{}", REDS[k]), true);
+                }
+                let ap: Vec<f64> = (0..n).map(|_| { let m = r.uniform(-0.5, 0.5).exp(); if r.coin(0.5) { m } else { -m } }).collect();
+                let res = run_red(1, it % 2, &ap);
+                lq(&mut long, app("CRed", vec![raw("RProd"), Tm::Nat((it % 2) as u64), fl(&ap), libm_table(&crate::libm::Table::default()), outcome_list(&res)]), "long/RProd", true);
             }
         }
     }
@@ -251,6 +266,115 @@ pub fn gen(tier: &str, seed: u64, outdir: &str) {
             cs.push(app("CMatBin", vec![raw(TOKS[t]), Tm::Nat(f as u64), mat_tm(rr, cc, &a), mat_tm(r2, c2, &b2), outcome_list(&res)]), "malformed/mat-shape-mismatch", res.is_err());
         }
     }}}}
+    // 2a. (coverage audit) shapes that `shapes_of` never yields: squares of composite order and tall non-vector shapes; every operator form,
+    //     negation, a map, powi, powf and both infinity norms on them
+    { let extra: Vec<(usize, usize)> = if thorough { (1..=40usize).flat_map(|n| { let known = shapes_of(n); shapes_all(n).into_iter().filter(move |s| !known.contains(s)) }).collect() }
+                                       else { vec![(4, 3), (3, 4), (4, 4), (6, 6), (18, 2)] };
+      for (si, &(rr, cc)) in extra.iter().enumerate() {
+        let n = rr * cc;
+        for t in 0..4 {
+            spread(&mut cs, &mut long, &mut tick);
+            let md = modes[(n + t + si) % 3];
+            let (a, b) = (vals(&mut r, n, md), vals(&mut r, n, md));
+            let s = val(&mut r, md);
+            let nt = nontrivial(n, &[&a, &b]);
+            let (m1, m2) = (mk(rr, cc, &a), mk(rr, cc, &b));
+            for f in 0..4 {
+                let res = mat_scalar(t, f, &m1, s);
+                let (sf, of) = if f < 2 { (app("MMat", vec![mat_tm(rr, cc, &a)]), app("MSc", vec![Tm::F(s)])) } else { (app("MSc", vec![Tm::F(s)]), app("MMat", vec![mat_tm(rr, cc, &a)])) };
+                cs.push(app("CMatOp", vec![raw(TRAITS[t]), raw(MS_FORMS[f].0), raw(MS_FORMS[f].1), sf, of, outcome_list(&res)]), if f < 2 { "mat-op-scalar" } else { "scalar-op-mat" }, nt);
+                let res = mat_mat(t, f, &m1, &m2);
+                cs.push(app("CMatBin", vec![raw(TOKS[t]), Tm::Nat(f as u64), mat_tm(rr, cc, &a), mat_tm(rr, cc, &b), outcome_list(&res)]), "mat-op-mat", nt);
+            }
+            for f in 0..2 {
+                let res = mat_mat_assign(t, f, &m1, &m2);
+                cs.push(app("CMatOp", vec![raw(ATRAITS[t]), raw("TyMatrix"), raw(if f == 0 { "TyMatrix" } else { "TyRefMatrix" }), app("MMat", vec![mat_tm(rr, cc, &a)]), app("MMat", vec![mat_tm(rr, cc, &b)]), outcome_list(&res)]), "mat-assign-mat", nt);
+            }
+            let res = mat_scalar_assign(t, &m1, s);
+            cs.push(app("CMatOp", vec![raw(ATRAITS[t]), raw("TyMatrix"), raw("TyF64"), app("MMat", vec![mat_tm(rr, cc, &a)]), app("MSc", vec![Tm::F(s)]), outcome_list(&res)]), "mat-assign-scalar", nt);
+            // same size, another factorisation: only the shape assertion can reject it
+            let others: Vec<(usize, usize)> = shapes_all(n).into_iter().filter(|s| *s != (rr, cc)).collect();
+            let (r2, c2) = others[(si + t) % others.len()];
+            let m3 = mk(r2, c2, &b);
+            let res = mat_mat_assign(t, t % 2, &m1, &m3);
+            cs.push(app("CMatOp", vec![raw(ATRAITS[t]), raw("TyMatrix"), raw(if t % 2 == 0 { "TyMatrix" } else { "TyRefMatrix" }), app("MMat", vec![mat_tm(rr, cc, &a)]), app("MMat", vec![mat_tm(r2, c2, &b)]), outcome_list(&res)]), "malformed/mat-shape-mismatch", res.is_err());
+            let res = mat_mat(t, t, &m1, &m3);
+            cs.push(app("CMatBin", vec![raw(TOKS[t]), Tm::Nat(t as u64), mat_tm(rr, cc, &a), mat_tm(r2, c2, &b), outcome_list(&res)]), "malformed/mat-shape-mismatch", res.is_err());
+        }
+        let a = vals(&mut r, n, Mode::Special);
+        let nt = nontrivial(n, &[&a]);
+        let m = mk(rr, cc, &a); let res = catch(move || mat_out(&(-m)));
+        cs.push(app("CMatNeg", vec![mat_tm(rr, cc, &a), outcome_list(&res)]), "neg/matrix", nt);
+        let (name, _vm, mm, sm, mode, tn) = maps[si % 29];
+        let am = vals(&mut r, n, mode);
+        let tb = scalar_table(sm, tn, &am);
+        let m = mk(rr, cc, &am); let res = catch(|| mat_out(&mm(&m)));
+        cs.push(app("CMatMap", vec![raw(name), mat_tm(rr, cc, &am), libm_table(&tb), outcome_list(&res)]), &format!("map/{}", name), nontrivial(n, &[&am]));
+        for e in [2i32, 3, -2] {
+            let m = mk(rr, cc, &a); let res = catch(move || mat_out(&m.powi(e)));
+            cs.push(app("CMatPowi", vec![mat_tm(rr, cc, &a), Tm::Z(e as i64), outcome_list(&res)]), "powi/matrix", nt);
+        }
+        let ar = vals(&mut r, n, Mode::Reals);
+        let x = ar.clone(); let res = catch(move || vec![inf_norm(&x, rr)]);
+        cs.push(app("CInfNorm", vec![fl(&ar), Tm::Nat(rr as u64), outcome_list(&res)]), "reduce/inf_norm", true);
+        let m = mk(rr, cc, &ar); let res = catch(move || vec![m.inf_norm()]);
+        cs.push(app("CMatInfNorm", vec![mat_tm(rr, cc, &ar), outcome_list(&res)]), "reduce/Matrix::inf_norm", true);
+      }
+    }
+    // 2a'. (coverage audit) every ordered pair of special values through the operators: element against element (the 14 x 14 pairs as one
+    //      vector of length 196 and as the 14 x 14 Matrix), element against every special scalar (scalar on either side, op-assign)
+    { let k = SPECIALS.len();
+      let a: Vec<f64> = (0..k * k).map(|i| SPECIALS[i / k]).collect();
+      let b: Vec<f64> = (0..k * k).map(|i| SPECIALS[i % k]).collect();
+      for t in 0..4 {
+          let f = t;
+          let res = vec_vec(t, f, &a, &b);
+          cs.push(app("CVecOp", vec![raw(TRAITS[t]), raw(VV_FORMS[f].0), raw(VV_FORMS[f].1), app("OVec", vec![fl(&a)]), app("OVec", vec![fl(&b)]), outcome_list(&res)]), "specials/vec-op-vec", true);
+          let res = vec_vec_assign(t, t % 2, &a, &b);
+          cs.push(app("CVecOp", vec![raw(ATRAITS[t]), raw("TyVector"), raw(if t % 2 == 0 { "TyVector" } else { "TyRefVector" }), app("OVec", vec![fl(&a)]), app("OVec", vec![fl(&b)]), outcome_list(&res)]), "specials/vec-assign-vec", true);
+          let (m1, m2) = (mk(k, k, &a), mk(k, k, &b));
+          let res = mat_mat(t, 3 - f, &m1, &m2);
+          cs.push(app("CMatBin", vec![raw(TOKS[t]), Tm::Nat((3 - f) as u64), mat_tm(k, k, &a), mat_tm(k, k, &b), outcome_list(&res)]), "specials/mat-op-mat", true);
+          for (j, &s) in SPECIALS.iter().enumerate() {
+              let f = (j + t) % 4;
+              let res = vec_scalar(t, f, &SPECIALS, s);
+              let (sf, of) = if f < 2 { (app("OVec", vec![fl(&SPECIALS)]), app("OSc", vec![Tm::F(s)])) } else { (app("OSc", vec![Tm::F(s)]), app("OVec", vec![fl(&SPECIALS)])) };
+              cs.push(app("CVecOp", vec![raw(TRAITS[t]), raw(VS_FORMS[f].0), raw(VS_FORMS[f].1), sf, of, outcome_list(&res)]), "specials/vec-scalar", true);
+              let f = (j + t + 2) % 4;
+              let m = mk(2, 7, &SPECIALS);
+              let res = mat_scalar(t, f, &m, s);
+              let (sf, of) = if f < 2 { (app("MMat", vec![mat_tm(2, 7, &SPECIALS)]), app("MSc", vec![Tm::F(s)])) } else { (app("MSc", vec![Tm::F(s)]), app("MMat", vec![mat_tm(2, 7, &SPECIALS)])) };
+              cs.push(app("CMatOp", vec![raw(TRAITS[t]), raw(MS_FORMS[f].0), raw(MS_FORMS[f].1), sf, of, outcome_list(&res)]), "specials/mat-scalar", true);
+              if j % 2 == t % 2 {
+                  let res = vec_scalar_assign(t, &SPECIALS, s);
+                  cs.push(app("CVecOp", vec![raw(ATRAITS[t]), raw("TyVector"), raw("TyF64"), app("OVec", vec![fl(&SPECIALS)]), app("OSc", vec![Tm::F(s)]), outcome_list(&res)]), "specials/vec-assign-scalar", true);
+              } else {
+                  let res = mat_scalar_assign(t, &m, s);
+                  cs.push(app("CMatOp", vec![raw(ATRAITS[t]), raw("TyMatrix"), raw("TyF64"), app("MMat", vec![mat_tm(2, 7, &SPECIALS)]), app("MSc", vec![Tm::F(s)]), outcome_list(&res)]), "specials/mat-assign-scalar", true);
+              }
+          }
+      }
+      // powi / powf: the extreme exponents on the special values
+      for &e in &[2i32, 3, -1, 0, i32::MAX, i32::MIN + 1, i32::MIN] {
+          let x = Vector::new(SPECIALS.to_vec());
+          let res = catch(move || x.powi(e).v);
+          cs.push(app("CVecPowi", vec![fl(&SPECIALS), Tm::Z(e as i64), outcome_list(&res)]), "specials/powi", true);
+          let m = mk(7, 2, &SPECIALS);
+          let res = catch(move || mat_out(&m.powi(e)));
+          cs.push(app("CMatPowi", vec![mat_tm(7, 2, &SPECIALS), Tm::Z(e as i64), outcome_list(&res)]), "specials/powi", true);
+      }
+      for &p in &[f64::INFINITY, f64::NEG_INFINITY, -0.0, 1.0, -1.0, 5e-324, 1.7976931348623157e308, f64::NAN, 0.5, 2.0, 3.0] {
+          crate::libm::start();
+          for x in &SPECIALS { std::hint::black_box(std::hint::black_box(*x).powf(std::hint::black_box(p))); }
+          let t = crate::libm::stop();
+          let x = Vector::new(SPECIALS.to_vec());
+          let res = catch(move || x.powf(p).v);
+          cs.push(app("CVecPowf", vec![fl(&SPECIALS), Tm::F(p), libm_table(&t), outcome_list(&res)]), "specials/powf", true);
+          let m = mk(2, 7, &SPECIALS);
+          let res = catch(move || mat_out(&m.powf(p)));
+          cs.push(app("CMatPowf", vec![mat_tm(2, 7, &SPECIALS), Tm::F(p), libm_table(&t), outcome_list(&res)]), "specials/powf", true);
+      }
+    }
     // 2b. the empty Matrix (0 x 0, as built by Matrix::empty()): every form
     for t in 0..4 {
         let e: Vec<f64> = vec![];
@@ -363,7 +487,7 @@ pub fn gen(tier: &str, seed: u64, outdir: &str) {
     // 5. powi (exponents -3..=5 and a few large ones) and powf
     for &n in &lengths(thorough, if thorough { 40 } else { 19 }, &mut r) {
         let mut exps: Vec<i32> = (-3..=5).collect();
-        exps.extend([7, 10, -8, 31, 64, i32::MAX, i32::MIN + 1]);
+        exps.extend([7, 10, -8, 31, 64, i32::MAX, i32::MIN + 1, i32::MIN]);
         for &e in &exps {
             if !thorough && !(2..=3).contains(&e) && (n as i32 + e).rem_euclid(3) != 0 { continue; }
             let a = vals(&mut r, n, if (n as i32 + e) % 2 == 0 { Mode::Reals } else { Mode::Special });
@@ -438,7 +562,7 @@ pub fn gen(tier: &str, seed: u64, outdir: &str) {
     }
     while let Some((t, tag)) = long.pop() { cs.push(t, &tag, true); }
     cs.write(outdir, if thorough { 250 } else { 700 },
-             "every length 0..=40 x 4 operators x every Vector operator form (op, scalar-left, scalar-right, op-assign; owned and borrowed) and the Matrix forms on every size 1..=40 (quick: 1..=18 and 24,31,32,33,40) with several shapes; the 29 maps + powi (-3..=5 and extreme exponents) + powf on Vector and Matrix; reductions (free function, Vector method, Matrix method), dot, both infinity norms; malformed stream (length / shape mismatches, nrows = 0 or not dividing the length); value modes: reals over 12 binades, small integers, specials (+-0, +-inf, NaN, subnormals, extremes, random bit patterns); non-trivial = length >= 9 with a non-empty remainder (n mod 8 <> 0), or a special value present, or a panic (malformed stream); distinct by hash of the case term");
+             "every length 0..=40 x 4 operators x every Vector operator form (op, scalar-left, scalar-right, op-assign; owned and borrowed) and the Matrix forms on every size 1..=40 (quick: 1..=18 and 24,31,32,33,40) with several shapes (1 x n, n x 1, one proper factorisation; plus squares of composite order and tall shapes: 4x3, 3x4, 4x4, 6x6, 18x2 at quick, every remaining factorisation of every size 1..=40 at thorough); every ordered pair of the 14 special values through every operator (element-element as a length-196 vector and a 14x14 Matrix, element-scalar on either side, op-assign); random lengths 41..10040 (4 draws at quick, 60 at thorough) through vec-op-vec, vec-scalar, powi, sum, dot, a map and the other reductions; the 29 maps + powi (-3..=5 and extreme exponents incl. i32::MAX, i32::MIN) + powf (incl. +-inf, -0, NaN exponents) on Vector and Matrix; reductions (free function, Vector method, Matrix method), dot, both infinity norms; malformed stream (length / shape mismatches, nrows = 0 or not dividing the length); value modes: reals over 12 binades, small integers, specials (+-0, +-inf, NaN, subnormals, extremes, random bit patterns); non-trivial = length >= 9 with a non-empty remainder (n mod 8 <> 0), or a special value present, or a panic (malformed stream); distinct by hash of the case term");
 }
 
 // ---------------------------------------------------------------------------------------------
@@ -696,5 +820,403 @@ pub fn oracle(tier: &str, seed: u64) -> (u64, Vec<Finding>) {
         }
         if out.len() > 40 { break; }
     }
+    coverage(tier, &mut r, &mut out, &mut tried);
     (tried, out)
+}
+
+// ---------------------------------------------------------------------------------------------
+// coverage audit: evaluation points that reach the whole of the property's quantifier. Nothing new is demanded (same
+// classes, same tolerances as above); the points are: every (length 0..=40) x (operator) x (form) x (every factorisation
+// of the length as a Matrix shape, squares and tall shapes included), every map / powi / powf exponent at every length
+// 0..=40 on Vector and Matrix, every ordered pair of special values through every operator form, lengths up to 1e4
+// through every form / map / reduction, reductions over the whole exponent range in which nothing overflows, products
+// with negative factors and zeros, every same-size and different-size shape mismatch.
+
+/// every factorisation r x c of n (n >= 1): 1 x n, n x 1, squares and tall shapes included
+fn shapes_all(n: usize) -> Vec<(usize, usize)> { (1..=n).filter(|d| n % d == 0).map(|d| (d, n / d)).collect() }
+
+/// special values and the edges of the maps' domains / rounding functions (the maps are compared kernel-vs-scalar, so any value is valid)
+const SPX: [f64; 32] = [0.0, -0.0, f64::INFINITY, f64::NEG_INFINITY, f64::NAN, 5e-324, -5e-324, 2.2250738585072014e-308, -2.2250738585072014e-308,
+    1.7976931348623157e308, -1.7976931348623157e308, 1.0, -1.0, 1e-300, 4.4501477170144023e-308, 2.225073858507201e-308,
+    0.5, -0.5, 0.49999999999999994, -0.49999999999999994, 1.5, 2.5, -2.5, 4503599627370497.0, 0.9999999999999999, 1.0000000000000002,
+    709.782712893384, 710.0, -745.2, 1e16, 1.3407807929942597e154, 1.4916681462400413e-154];
+
+/// magnitudes over the exponent range 2^-emax .. 2^emax, either sign
+fn wide(r: &mut Rng, emax: i64) -> f64 { let e = r.range(-emax, emax) as i32; let m = r.uniform(1.0, 2.0) * 2f64.powi(e); if r.coin(0.5) { m } else { -m } }
+
+/// every operator form (Vector: 4 + 4 + 2 + 1; Matrix, for every given shape: 4 + 4 + 2 + 1 and negation) on the same operands,
+/// and every borrowed operand unchanged afterwards
+fn all_forms(out: &mut Vec<Finding>, tried: &mut u64, t: usize, a: &[f64], b: &[f64], s: f64, shapes: &[(usize, usize)]) {
+    let n = a.len();
+    let want: Vec<f64> = (0..n).map(|i| sop(t, a[i], b[i])).collect();
+    let want_vs: Vec<f64> = (0..n).map(|i| sop(t, a[i], s)).collect();
+    let want_sv: Vec<f64> = (0..n).map(|i| sop(t, s, a[i])).collect();
+    let inp = format!("op={} (every form) a={} b={} scalar={:e}", OPN[t], json_floats(a), json_floats(b), s); crumb(&inp);
+    for f in 0..4 {
+        check_pos(out, &format!("vec-op-vec:{}", OPN[t]), &vec_vec(t, f, a, b), &want, &format!("form={} {}", f, inp));
+        check_pos(out, &format!("{}:{}", if f < 2 { "vec-op-scalar" } else { "scalar-op-vec" }, OPN[t]), &vec_scalar(t, f, a, s), if f < 2 { &want_vs } else { &want_sv }, &format!("form={} {}", f, inp));
+    }
+    for f in 0..2 {
+        let mut w2 = want.clone(); if f == 1 { w2.extend_from_slice(b); }
+        check_pos(out, &format!("vec-assign-vec:{}", OPN[t]), &vec_vec_assign(t, f, a, b), &w2, &format!("form={} {}", f, inp));
+    }
+    check_pos(out, &format!("vec-assign-scalar:{}", OPN[t]), &vec_scalar_assign(t, a, s), &want_vs, &inp);
+    // the same Vector on both sides
+    { let x = Vector::new(a.to_vec()); let want_aa: Vec<f64> = (0..n).map(|i| sop(t, a[i], a[i])).collect();
+      check_pos(out, &format!("vec-op-vec:{}", OPN[t]), &catch(|| { let z: Vector = binop!(t, &x, &x); z.v }), &want_aa, &format!("&x op &x {}", inp)); }
+    *tried += 12;
+    { let (x, y) = (Vector::new(a.to_vec()), Vector::new(b.to_vec()));
+      let _ = catch(|| {
+          let _z: Vector = binop!(t, &x, &y); let _z: Vector = binop!(t, x.clone(), &y); let _z: Vector = binop!(t, &x, y.clone());
+          let _z: Vector = binop!(t, &x, s); let _z: Vector = binop!(t, s, &x);
+          let mut z = x.clone(); asgop!(t, z, &y);
+      });
+      *tried += 1;
+      if !same_vec(&x.v, a) || !same_vec(&y.v, b) { out.push(Finding { class: "operand-modified".into(), what: "a borrowed Vector operand changed".into(), input: inp.clone() }); } }
+    for &(rr, cc) in shapes {
+        let (m1, m2) = (mk(rr, cc, a), mk(rr, cc, b));
+        let inpm = format!("shape={}x{} {}", rr, cc, inp); crumb(&inpm);
+        let shape = |w: &[f64]| { let mut o = vec![rr as f64, cc as f64]; o.extend_from_slice(w); o };
+        for f in 0..4 {
+            check_pos(out, &format!("mat-op-mat:{}", OPN[t]), &mat_mat(t, f, &m1, &m2), &shape(&want), &format!("form={} {}", f, inpm));
+            check_pos(out, &format!("{}:{}", if f < 2 { "mat-op-scalar" } else { "scalar-op-mat" }, OPN[t]), &mat_scalar(t, f, &m1, s), &shape(if f < 2 { &want_vs } else { &want_sv }), &format!("form={} {}", f, inpm));
+        }
+        for f in 0..2 {
+            let mut w3 = shape(&want); if f == 1 { w3.extend(shape(b)); }
+            check_pos(out, &format!("mat-assign-mat:{}", OPN[t]), &mat_mat_assign(t, f, &m1, &m2), &w3, &format!("form={} {}", f, inpm));
+        }
+        check_pos(out, &format!("mat-assign-scalar:{}", OPN[t]), &mat_scalar_assign(t, &m1, s), &shape(&want_vs), &inpm);
+        let neg: Vec<f64> = a.iter().map(|x| -x).collect();
+        let m = m1.clone();
+        check_pos(out, "neg:matrix", &catch(move || mat_out(&(-m))), &shape(&neg), &inpm);
+        *tried += 12;
+        { let (x, y) = (m1.clone(), m2.clone());
+          let _ = catch(|| {
+              let _z: Matrix = binop!(t, &x, &y); let _z: Matrix = binop!(t, x.clone(), &y); let _z: Matrix = binop!(t, &x, y.clone());
+              let _z: Matrix = binop!(t, &x, s); let _z: Matrix = binop!(t, s, &x);
+              let mut z = x.clone(); asgop!(t, z, &y);
+              let _z = x.abs(); let _z = x.powi(2); let _z = x.powf(0.5);
+          });
+          *tried += 1;
+          if !same_vec(&x.data, a) || !same_vec(&y.data, b) || x.nrows != rr || x.ncols != cc || y.nrows != rr || y.ncols != cc {
+              out.push(Finding { class: "operand-modified".into(), what: "a borrowed Matrix operand changed".into(), input: inpm.clone() }); } }
+    }
+}
+
+/// one map on a Vector and (n >= 1) on a Matrix of the given shape: kernel vs the scalar method at each position
+fn one_map(out: &mut Vec<Finding>, tried: &mut u64, row: &MapRow, am: &[f64], shape: Option<(usize, usize)>) {
+    let (name, vm, mm, sm, _, _) = *row;
+    let wantm: Vec<f64> = am.iter().map(|x| sm(*x)).collect();
+    let x = Vector::new(am.to_vec());
+    let inpx = format!("map={} a={}", name, json_floats(am)); crumb(&inpx);
+    check_pos(out, &format!("map:{}", name), &catch(|| vm(&x).v), &wantm, &inpx); *tried += 1;
+    if !same_vec(&x.v, am) { out.push(Finding { class: "operand-modified".into(), what: "a map changed its operand".into(), input: inpx.clone() }); }
+    if let Some((rr, cc)) = shape {
+        let m = mk(rr, cc, am);
+        let mut w = vec![rr as f64, cc as f64]; w.extend_from_slice(&wantm);
+        let inpx = format!("map={} shape={}x{} a={}", name, rr, cc, json_floats(am)); crumb(&inpx);
+        check_pos(out, &format!("map:{}", name), &catch(|| mat_out(&mm(&m))), &w, &inpx); *tried += 1;
+        if !same_vec(&m.data, am) { out.push(Finding { class: "operand-modified".into(), what: "a Matrix map changed its operand".into(), input: inpx.clone() }); }
+    }
+}
+
+/// powi / powf on a Vector and on a Matrix of the given shape
+fn one_pow(out: &mut Vec<Finding>, tried: &mut u64, ap: &[f64], e: Option<i32>, p: Option<f64>, shape: Option<(usize, usize)>) {
+    if let Some(e) = e {
+        let inpx = format!("powi exponent={} a={}", e, json_floats(ap)); crumb(&inpx);
+        let wantp: Vec<f64> = ap.iter().map(|x| std::hint::black_box(*x).powi(std::hint::black_box(e))).collect();
+        let class = format!("powi:{}", if e == 2 || e == 3 { e.to_string() } else { "other".into() });
+        let x = Vector::new(ap.to_vec());
+        check_pos(out, &class, &catch(move || x.powi(e).v), &wantp, &inpx); *tried += 1;
+        if let Some((rr, cc)) = shape {
+            let m = mk(rr, cc, ap);
+            let mut w = vec![rr as f64, cc as f64]; w.extend_from_slice(&wantp);
+            check_pos(out, &class, &catch(move || mat_out(&m.powi(e))), &w, &format!("Matrix {}x{} {}", rr, cc, inpx)); *tried += 1;
+        }
+    }
+    if let Some(p) = p {
+        let inpx = format!("powf exponent={:e} a={}", p, json_floats(ap)); crumb(&inpx);
+        let wantp: Vec<f64> = ap.iter().map(|x| std::hint::black_box(*x).powf(std::hint::black_box(p))).collect();
+        let x = Vector::new(ap.to_vec());
+        check_pos(out, "powf", &catch(move || x.powf(p).v), &wantp, &inpx); *tried += 1;
+        if let Some((rr, cc)) = shape {
+            let m = mk(rr, cc, ap);
+            let mut w = vec![rr as f64, cc as f64]; w.extend_from_slice(&wantp);
+            check_pos(out, "powf", &catch(move || mat_out(&m.powf(p))), &w, &format!("Matrix {}x{} {}", rr, cc, inpx)); *tried += 1;
+        }
+    }
+}
+
+/// sum / dot / norm through the free function, the Vector method and the Matrix method, against the compensated references, with the
+/// bounds of the main loop (finite data; no product underflows or overflows: the caller's responsibility)
+fn sum_dot_norm(out: &mut Vec<Finding>, tried: &mut u64, ar: &[f64], br: &[f64]) {
+    let n = ar.len();
+    let u = f64::EPSILON; let nn = n as f64 + 2.0;
+    let inp = format!("a={} b={}", json_floats(ar), json_floats(br)); crumb(&inp);
+    let (sref, sabs) = (dd_sum(ar.iter().copied()), ar.iter().map(|x| x.abs()).sum::<f64>());
+    let shp = if n == 0 { (0, 0) } else { let sh = shapes_all(n); sh[sh.len() / 2] };
+    let sums = [("sum", catch(|| sum(ar))), ("Vector::sum", catch(|| Vector::new(ar.to_vec()).sum())), ("Matrix::sum", catch(|| mk(shp.0, shp.1, ar).sum()))];
+    for (nm, g) in sums { *tried += 1; match g {
+        Ok(got) => if !((got - sref).abs() <= nn * u * sabs) { out.push(Finding { class: "sum:beyond-rounding-bound".into(), what: format!("{} = {:e}, exact sum = {:e}, bound {:e}", nm, got, sref, nn * u * sabs), input: inp.clone() }); },
+        Err(e) => out.push(Finding { class: "sum:panics".into(), what: format!("{} panicked: {}", nm, e), input: inp.clone() }) } }
+    let (mut dh, mut dabs) = (vec![], 0.0);
+    for i in 0..n { let (p, e) = two_prod(ar[i], br[i]); dh.push(p); dh.push(e); dabs += p.abs(); }
+    let dref = dd_sum(dh.iter().copied());
+    *tried += 1;
+    match catch(|| dot(ar, br)) {
+        Ok(got) => if !((got - dref).abs() <= (nn + 1.0) * u * dabs) { out.push(Finding { class: "dot:beyond-rounding-bound".into(), what: format!("dot = {:e}, exact = {:e}, bound {:e}", got, dref, (nn + 1.0) * u * dabs), input: inp.clone() }); },
+        Err(e) => out.push(Finding { class: "dot:panics".into(), what: e, input: inp.clone() }) }
+    let mut qh = vec![]; for i in 0..n { let (p, e) = two_prod(ar[i], ar[i]); qh.push(p); qh.push(e); }
+    let nref = dd_sum(qh.iter().copied()).sqrt();
+    let norms = [("norm", catch(|| norm(ar))), ("Vector::norm", catch(|| Vector::new(ar.to_vec()).norm())), ("Matrix::norm", catch(|| mk(shp.0, shp.1, ar).norm()))];
+    for (nm, g) in norms { *tried += 1; match g {
+        Ok(got) => if !((got - nref).abs() <= (nn + 2.0) * u * nref) { out.push(Finding { class: "norm:beyond-rounding-bound".into(), what: format!("{} = {:e}, reference = {:e}", nm, got, nref), input: inp.clone() }); },
+        Err(e) => out.push(Finding { class: "norm:panics".into(), what: format!("{} panicked: {}", nm, e), input: inp.clone() }) } }
+}
+
+/// prod of non-zero finite factors of either sign whose running product stays far from overflow and underflow (checked here on the logarithms):
+/// the sign is the parity of the negative factors, ln|prod| = sum of ln|x_i| within the bound of the main loop
+fn prod_signed(out: &mut Vec<Finding>, tried: &mut u64, ap: &[f64]) {
+    let n = ap.len(); let u = f64::EPSILON; let nn = n as f64 + 2.0;
+    let mut run = 0.0f64; for x in ap { run += x.abs().ln(); if !(run.abs() < 600.0) { return; } }
+    let lref = dd_sum(ap.iter().map(|x| x.abs().ln()));
+    let negs = ap.iter().filter(|x| **x < 0.0).count();
+    let inp = format!("a={}", json_floats(ap)); crumb(&format!("prod {}", inp));
+    let shp = if n == 0 { (0, 0) } else { let sh = shapes_all(n); sh[sh.len() / 2] };
+    let prods = [("prod", catch(|| prod(ap))), ("Vector::prod", catch(|| Vector::new(ap.to_vec()).prod())), ("Matrix::prod", catch(|| mk(shp.0, shp.1, ap).prod()))];
+    for (nm, g) in prods { *tried += 1; match g {
+        Ok(got) => {
+            if !((got.abs().ln() - lref).abs() <= (nn + 4.0) * u * (1.0 + ap.iter().map(|x| x.abs().ln().abs()).sum::<f64>())) {
+                out.push(Finding { class: "prod:beyond-rounding-bound".into(), what: format!("ln|{}| = {:e}, sum of ln|x_i| = {:e}", nm, got.abs().ln(), lref), input: inp.clone() }); }
+            else if (got < 0.0) != (negs % 2 == 1) { out.push(Finding { class: "prod:wrong-sign".into(), what: format!("{} = {:e} with {} negative factors", nm, got, negs), input: inp.clone() }); }
+        }
+        Err(e) => out.push(Finding { class: "prod:panics".into(), what: format!("{} panicked: {}", nm, e), input: inp.clone() }) } }
+}
+
+/// logsumexp / logmeanexp of finite inputs through the free function and the Vector method: finite, and within the tolerance of the main loop
+fn lse_lme(out: &mut Vec<Finding>, tried: &mut u64, al: &[f64]) {
+    let n = al.len(); if n == 0 { return; }
+    let u = f64::EPSILON;
+    let m = al.iter().cloned().fold(f64::NEG_INFINITY, f64::max);
+    let sref = dd_sum(al.iter().map(|x| (x - m).exp()));
+    let (lse, lme) = (sref.ln() + m, (sref / n as f64).ln() + m);
+    let tol = |w: f64| 4.0 * (n as f64 + 10.0) * u * w.abs().max(1.0);
+    let inp = format!("x={}", json_floats(al)); crumb(&inp);
+    let gots = [("logsumexp", "logsumexp", catch(|| logsumexp(al)), lse), ("Vector::logsumexp", "logsumexp", catch(|| Vector::new(al.to_vec()).logsumexp()), lse),
+                ("logmeanexp", "logmeanexp", catch(|| logmeanexp(al)), lme), ("Vector::logmeanexp", "logmeanexp", catch(|| Vector::new(al.to_vec()).logmeanexp()), lme)];
+    for (nm, cl, g, want) in gots { *tried += 1; match g {
+        Ok(got) => if !got.is_finite() { out.push(Finding { class: format!("{}:overflow", cl), what: format!("{} = {:e} for {} finite inputs (true value {:e})", nm, got, n, want), input: inp.clone() }); }
+                   else if !((got - want).abs() <= tol(want)) { out.push(Finding { class: format!("{}:inaccurate", cl), what: format!("{} = {:e}, reference {:e}", nm, got, want), input: inp.clone() }); },
+        Err(e) => out.push(Finding { class: format!("{}:panics", cl), what: format!("{} panicked: {}", nm, e), input: inp.clone() }) } }
+}
+
+/// both infinity norms on every given shape, with the bound of the main loop; row counts that do not divide the length are rejected
+fn inf_norms(out: &mut Vec<Finding>, tried: &mut u64, ar: &[f64], shapes: &[(usize, usize)]) {
+    let n = ar.len(); let u = f64::EPSILON;
+    for &(rr, cc) in shapes {
+        let iref = (0..rr).map(|i| dd_sum((0..cc).map(|j| ar[i * cc + j].abs()))).fold(0.0, f64::max);
+        let inp = format!("shape={}x{} a={}", rr, cc, json_floats(ar)); crumb(&inp);
+        *tried += 2;
+        match catch(|| inf_norm(ar, rr)) {
+            Ok(g) => if !((g - iref).abs() <= (cc as f64 + 2.0) * u * iref) { out.push(Finding { class: "inf_norm:wrong".into(), what: format!("inf_norm = {:e}, max row sum = {:e}", g, iref), input: inp.clone() }); },
+            Err(e) => out.push(Finding { class: "inf_norm:panics".into(), what: e, input: inp.clone() }) }
+        let mm = mk(rr, cc, ar);
+        match catch(|| mm.inf_norm()) {
+            Ok(g) => if !((g - iref).abs() <= (cc as f64 + 2.0) * u * iref) { out.push(Finding { class: "Matrix::inf_norm:wrong".into(), what: format!("Matrix::inf_norm = {:e}, max row sum = {:e}", g, iref), input: inp.clone() }); },
+            Err(e) => out.push(Finding { class: "Matrix::inf_norm:panics".into(), what: e, input: inp.clone() }) }
+    }
+    if n >= 1 {
+        let mut bad: Vec<usize> = vec![0, n + 1, 2 * n, n + 7];
+        for d in 2..n { if n % d != 0 { bad.push(d); if bad.len() > 8 { break; } } }
+        if n >= 3 { bad.push(n - 1); }
+        for nr in bad {
+            if nr != 0 && n % nr == 0 { continue; }
+            let inp = format!("nrows={} a={}", nr, json_floats(ar)); crumb(&inp); *tried += 1;
+            if let Ok(g) = catch(|| inf_norm(ar, nr)) { out.push(Finding { class: "inf_norm:nonmatrix-accepted".into(), what: format!("inf_norm returned {:e} for {} elements in {} rows", g, n, nr), input: inp }); }
+        }
+    }
+}
+
+fn coverage(tier: &str, r: &mut Rng, out: &mut Vec<Finding>, tried: &mut u64) {
+    let thorough = tier == "thorough";
+    let maps = all_maps();
+    let modes = [Mode::Reals, Mode::Special, Mode::Ints];
+    // A. every length 0..=40 x every operator x every form x every factorisation of the length
+    for rep in 0..(if thorough { 3 } else { 1 }) { for n in 0..=40usize { for t in 0..4 {
+        let md = modes[(n + t + rep) % 3];
+        let (a, b) = (vals(r, n, md), vals(r, n, md));
+        let s = val(r, md);
+        let sh = if n == 0 { vec![] } else { shapes_all(n) };
+        all_forms(out, tried, t, &a, &b, s, &sh);
+        if out.len() > 40 { return; }
+    }}}
+    // B. every ordered pair of special values through every operator form: element against element (one K*K vector, also as the K x K
+    //    square Matrix) and element against scalar
+    { let k = SPX.len();
+      let a: Vec<f64> = (0..k * k).map(|i| SPX[i / k]).collect();
+      let b: Vec<f64> = (0..k * k).map(|i| SPX[i % k]).collect();
+      for t in 0..4 {
+          all_forms(out, tried, t, &a, &b, SPX[(7 * t + 3) % k], &[(k, k)]);
+          for (j, s) in SPX.iter().enumerate() {
+              let rot: Vec<f64> = (0..k).map(|i| SPX[(i + j) % k]).collect();
+              all_forms(out, tried, t, &SPX, &rot, *s, &[(4, k / 4)]);
+          }
+          if out.len() > 40 { return; }
+      } }
+    // C. every map at every length 0..=40: values in the map's domain, a rotation of the special values / domain edges (so that each of
+    //    them meets the first, the last and the chunk-boundary positions), random bit patterns at the thorough tier; Vector and Matrix
+    for (mi, row) in maps.iter().enumerate() { for n in 0..=40usize { for pass in 0..(if thorough { 3 } else { 2 }) {
+        let am: Vec<f64> = match pass { 0 => vals(r, n, row.4), 1 => (0..n).map(|i| SPX[(i + n + mi) % SPX.len()]).collect(), _ => (0..n).map(|_| f64::from_bits(r.next())).collect() };
+        let shape = if n == 0 { None } else { let sh = shapes_all(n); Some(sh[(n + mi + pass) % sh.len()]) };
+        one_map(out, tried, row, &am, shape);
+    }} if out.len() > 40 { return; } }
+    // D. powi / powf: every length 0..=40 x the exponents of the correspondence generator and the extreme ones
+    let exps: [i32; 22] = [-3, -2, -1, 0, 1, 2, 3, 4, 5, 7, 10, -8, 11, -7, 31, 64, -64, 1000, -1075, i32::MAX, i32::MIN + 1, i32::MIN];
+    let pexps: [f64; 20] = [2.0, 3.0, 0.5, -1.25, -1.5, 0.0, -0.0, 1.0, -1.0, 1.0 / 3.0, 1e3, -1e3, f64::NAN, f64::INFINITY, f64::NEG_INFINITY, 5e-324, 1e308, 2.0000000000000004, 1075.0, -1074.5];
+    for n in 0..=40usize {
+        for (ei, &e) in exps.iter().enumerate() {
+            let ap: Vec<f64> = match (n + ei) % 3 { 0 => vals(r, n, Mode::Reals), 1 => vals(r, n, Mode::Special), _ => (0..n).map(|i| SPX[(i + n + ei) % SPX.len()]).collect() };
+            let shape = if n == 0 { None } else { let sh = shapes_all(n); Some(sh[(n + ei) % sh.len()]) };
+            one_pow(out, tried, &ap, Some(e), Some(pexps[(n + ei) % pexps.len()]), shape);
+        }
+        if thorough { for (pi, &p) in pexps.iter().enumerate() {
+            let ap: Vec<f64> = if (n + pi) % 2 == 0 { vals(r, n, Mode::Pos) } else { (0..n).map(|i| SPX[(i + n + pi) % SPX.len()]).collect() };
+            let shape = if n == 0 { None } else { let sh = shapes_all(n); Some(sh[(n + pi) % sh.len()]) };
+            one_pow(out, tried, &ap, None, Some(p), shape);
+        } }
+        if out.len() > 40 { return; }
+    }
+    // E. shape / length mismatches: every ordered pair of distinct factorisations of the same size (only the shape assertion can reject
+    //    these), shapes of different sizes, square shapes; dot and the vector forms with a longer, a shorter and an empty partner
+    for n in 1..=40usize {
+        let sh = shapes_all(n);
+        let t = n % 4;
+        let (a, b) = (vals(r, n, Mode::Ints), vals(r, n, Mode::Ints));
+        for &(r1, c1) in &sh { for &(r2, c2) in &sh {
+            if (r1, c1) == (r2, c2) { continue; }
+            let (m1, m3) = (mk(r1, c1, &a), mk(r2, c2, &b));
+            let inp = format!("op={} {}x{} with {}x{} a={} b={}", OPN[t], r1, c1, r2, c2, json_floats(&a), json_floats(&b)); crumb(&inp);
+            for f in 0..2 { *tried += 1; if let Ok(v) = mat_mat_assign(t, f, &m1, &m3) { out.push(Finding { class: "mat-assign-mat:shape-mismatch-accepted".into(), what: format!("{}x{} op= {}x{} returned {:?}", r1, c1, r2, c2, &v[..2]), input: inp.clone() }); } }
+            if r1 > 1 && c1 > 1 && r2 > 1 && c2 > 1 { for f in 0..4 { *tried += 1; if let Ok(v) = mat_mat(t, f, &m1, &m3) { out.push(Finding { class: "mat-op-mat:shape-mismatch-accepted".into(), what: format!("{}x{} op {}x{} returned {:?}", r1, c1, r2, c2, &v[..2]), input: inp.clone() }); } } }
+        }}
+        // different sizes: one more / one fewer row or column (all dimensions >= 2 for the broadcasting operator)
+        for &(r1, c1) in &sh {
+            for &(r2, c2) in &[(r1 + 1, c1), (r1, c1 + 1), (r1 + 1, c1 + 1), (r1.max(2) - 1, c1), (r1, c1.max(2) - 1)] {
+                if (r1, c1) == (r2, c2) { continue; }
+                let b2 = vals(r, r2 * c2, Mode::Ints);
+                let (m1, m3) = (mk(r1, c1, &a), mk(r2, c2, &b2));
+                let inp = format!("op={} {}x{} with {}x{} a={} b={}", OPN[t], r1, c1, r2, c2, json_floats(&a), json_floats(&b2)); crumb(&inp);
+                for f in 0..2 { *tried += 2;
+                    if let Ok(v) = mat_mat_assign(t, f, &m1, &m3) { out.push(Finding { class: "mat-assign-mat:shape-mismatch-accepted".into(), what: format!("{}x{} op= {}x{} returned {:?}", r1, c1, r2, c2, &v[..2]), input: inp.clone() }); }
+                    if let Ok(v) = mat_mat_assign(t, f, &m3, &m1) { out.push(Finding { class: "mat-assign-mat:shape-mismatch-accepted".into(), what: format!("{}x{} op= {}x{} returned {:?}", r2, c2, r1, c1, &v[..2]), input: inp.clone() }); } }
+                if r1 > 1 && c1 > 1 && r2 > 1 && c2 > 1 { for f in 0..4 { *tried += 1; if let Ok(v) = mat_mat(t, f, &m1, &m3) { out.push(Finding { class: "mat-op-mat:shape-mismatch-accepted".into(), what: format!("{}x{} op {}x{} returned {:?}", r1, c1, r2, c2, &v[..2]), input: inp.clone() }); } } }
+            }
+        }
+        if out.len() > 40 { return; }
+    }
+    for n in 0..=40usize { for t in 0..4 {
+        let a = vals(r, n, Mode::Ints);
+        let mut others: Vec<usize> = vec![n + 1, n + 8, n + 16, 2 * n + 3];
+        if n >= 1 { others.extend([0, n - 1, n / 2]); } if n >= 9 { others.push(n - 8); }
+        for k in others {
+            if k == n { continue; }
+            let b2 = vals(r, k, Mode::Ints);
+            let inp2 = format!("op={} a={} b={}", OPN[t], json_floats(&a), json_floats(&b2)); crumb(&inp2);
+            for (p, q) in [(&a, &b2), (&b2, &a)] {
+                for f in 0..4 { *tried += 1; if let Ok(v) = vec_vec(t, f, p, q) { out.push(Finding { class: "vec-op-vec:length-mismatch-accepted".into(), what: format!("returned {} values for operands of lengths {} and {}", v.len(), p.len(), q.len()), input: inp2.clone() }); } }
+                for f in 0..2 { *tried += 1; if let Ok(v) = vec_vec_assign(t, f, p, q) { out.push(Finding { class: "vec-assign-vec:length-mismatch-accepted".into(), what: format!("returned {} values for operands of lengths {} and {}", v.len(), p.len(), q.len()), input: inp2.clone() }); } }
+                if t == 0 { *tried += 1; if let Ok(g) = catch(|| dot(p, q)) { out.push(Finding { class: "dot:length-mismatch-accepted".into(), what: format!("dot returned {:e} for lengths {} and {}", g, p.len(), q.len()), input: inp2.clone() }); } }
+            }
+        }
+        if out.len() > 40 { return; }
+    }}
+    // F. reductions at every length 0..=40: the whole exponent range in which no square over- or underflows (2^-400 .. 2^400), massive
+    //    cancellation, constant vectors, products of factors of either sign, log-domain inputs of every magnitude; both infinity norms on
+    //    every factorisation
+    for rep in 0..(if thorough { 6 } else { 1 }) { for n in 0..=40usize {
+        let ar: Vec<f64> = (0..n).map(|_| wide(r, 400)).collect(); let br: Vec<f64> = (0..n).map(|_| wide(r, 400)).collect();
+        sum_dot_norm(out, tried, &ar, &br);
+        // cancellation: pairs x, -x in random positions, one small survivor
+        let mut ac = vals(r, n, Mode::Reals);
+        for i in 0..n / 2 { ac[2 * i + 1] = -ac[2 * i]; }
+        for i in (1..n).rev() { let j = r.below(i as u64 + 1) as usize; ac.swap(i, j); }
+        if n % 2 == 1 { ac[n / 2] = 1e-9 * r.uniform(-1.0, 1.0); }
+        let bc = vals(r, n, Mode::Reals);
+        sum_dot_norm(out, tried, &ac, &bc);
+        let c = wide(r, 300); sum_dot_norm(out, tried, &vec![c; n], &vec![-c; n]);
+        let sh = if n == 0 { vec![] } else { shapes_all(n) };
+        inf_norms(out, tried, &ar, &sh);
+        inf_norms(out, tried, &ac, &sh);
+        // products: factors of either sign, magnitudes e^(+-l); balanced so that the running product stays in range
+        let l = *r.pick(&[0.1, 1.0, 5.0, 25.0]);
+        let ap: Vec<f64> = (0..n).map(|_| { let m = r.uniform(-l, l).exp(); if r.coin(0.5) { m } else { -m } }).collect();
+        prod_signed(out, tried, &ap);
+        prod_signed(out, tried, &vals(r, n, Mode::Pos));
+        if n >= 1 {
+            // a zero factor among finite ones: the product is a zero
+            let mut az = ap.clone(); az[r.below(n as u64) as usize] = if r.coin(0.5) { 0.0 } else { -0.0 };
+            let inp = format!("a={}", json_floats(&az)); crumb(&format!("prod {}", inp)); *tried += 1;
+            let got = prod(&az);
+            if az.iter().all(|x| x.abs() < 1e30) && l <= 5.0 && got != 0.0 { out.push(Finding { class: "prod:zero-factor".into(), what: format!("prod = {:e} although a factor is zero and every partial product is finite", got), input: inp }); }
+            // log-domain inputs
+            for shift in [0.0, 700.0, -700.0, 1e4, -1e6, 1e300, -1e300, 1.7e308, -1.7e308, 1e-300] {
+                let spread = *r.pick(&[1e-3, 1.0, 30.0, 800.0, 1e5]);
+                let al: Vec<f64> = (0..n).map(|_| { let x: f64 = shift + r.uniform(-spread, spread); if x.is_finite() { x } else { shift } }).collect();
+                lse_lme(out, tried, &al);
+            }
+            lse_lme(out, tried, &vec![1.7976931348623157e308; n]);
+            lse_lme(out, tried, &vec![-1.7976931348623157e308; n]);
+            let mut ex = vec![-1.7976931348623157e308; n]; ex[n - 1] = 1.7976931348623157e308; lse_lme(out, tried, &ex);
+            let mut ex = vec![1.7976931348623157e308; n]; ex[0] = -1.7976931348623157e308; lse_lme(out, tried, &ex);
+            lse_lme(out, tried, &vec![0.0; n]); lse_lme(out, tried, &vec![5e-324; n]);
+        }
+        if out.len() > 40 { return; }
+    } let _ = rep; }
+    // G. lengths up to 1e4 (the stated maximum) and the powers of two around which an index computation could wrap: every operator form,
+    //    a few shapes incl. the most square one, the maps in rotation, powi 2 / 3 / other, powf, every reduction
+    let mut longs: Vec<usize> = if thorough { vec![41, 47, 48, 63, 64, 65, 100, 127, 128, 129, 255, 256, 257, 1000, 1023, 1024, 1025, 4095, 4096, 4097, 8191, 8192, 8193, 9999, 10_000] }
+                                else { vec![64, 65, 257, 1000, 4097, 9999, 10_000] };
+    for _ in 0..(if thorough { 25 } else { 3 }) { longs.push(41 + r.below(9_960) as usize); }
+    for (li, &n) in longs.iter().enumerate() {
+        let sh = shapes_all(n);
+        let shapes = [sh[sh.len() / 2], sh[(li + 1) % sh.len()]];
+        for t in 0..4 {
+            if !thorough && n > 2000 && (li + t) % 2 == 0 { continue; }
+            let md = modes[(li + t) % 3];
+            let (a, b) = (vals(r, n, md), vals(r, n, md));
+            all_forms(out, tried, t, &a, &b, val(r, md), &shapes[..if thorough { 2 } else { 1 }]);
+        }
+        for k in 0..(if thorough { 29 } else { 4 }) {
+            let row = &maps[(li * 4 + k) % 29];
+            let am = vals(r, n, if k % 2 == 0 { row.4 } else { Mode::Special });
+            one_map(out, tried, row, &am, Some(shapes[k % 2]));
+        }
+        let ap = vals(r, n, if li % 2 == 0 { Mode::Reals } else { Mode::Special });
+        one_pow(out, tried, &ap, Some(2), Some(pexps[li % pexps.len()]), Some(shapes[0]));
+        one_pow(out, tried, &ap, Some(3), None, Some(shapes[1]));
+        one_pow(out, tried, &ap, Some(exps[li % exps.len()]), None, Some(shapes[0]));
+        // reductions at this length
+        let (ar, br) = (vals(r, n, Mode::Reals), vals(r, n, Mode::Reals));
+        sum_dot_norm(out, tried, &ar, &br);
+        let aw: Vec<f64> = (0..n).map(|_| wide(r, 400)).collect(); let bw: Vec<f64> = (0..n).map(|_| wide(r, 400)).collect();
+        sum_dot_norm(out, tried, &aw, &bw);
+        inf_norms(out, tried, &ar, &shapes);
+        let l = 0.5;
+        let ap: Vec<f64> = (0..n).map(|_| { let m = r.uniform(-l, l).exp(); if r.coin(0.5) { m } else { -m } }).collect();
+        prod_signed(out, tried, &ap);
+        for shift in [0.0, 705.0, -740.0, 1e300, -1.7e308] {
+            let spread = *r.pick(&[1.0, 30.0, 800.0]);
+            let al: Vec<f64> = (0..n).map(|_| { let x: f64 = shift + r.uniform(-spread, spread); if x.is_finite() { x } else { shift } }).collect();
+            lse_lme(out, tried, &al);
+        }
+        // length mismatch at this length: one more, one fewer, a whole chunk fewer
+        for k in [n + 1, n - 1, n - 8] {
+            let b2 = vals(r, k, Mode::Ints); let t = li % 4; *tried += 3;
+            let inp2 = format!("op={} lengths {} and {} a={} b={}", OPN[t], n, k, json_floats(&ar), json_floats(&b2)); crumb(&inp2);
+            if let Ok(v) = vec_vec(t, li % 4, &ar, &b2) { out.push(Finding { class: "vec-op-vec:length-mismatch-accepted".into(), what: format!("returned {} values for operands of lengths {} and {}", v.len(), n, k), input: inp2.clone() }); }
+            if let Ok(v) = vec_vec_assign(t, li % 2, &ar, &b2) { out.push(Finding { class: "vec-assign-vec:length-mismatch-accepted".into(), what: format!("returned {} values for operands of lengths {} and {}", v.len(), n, k), input: inp2.clone() }); }
+            if let Ok(g) = catch(|| dot(&ar, &b2)) { out.push(Finding { class: "dot:length-mismatch-accepted".into(), what: format!("dot returned {:e} for lengths {} and {}", g, n, k), input: inp2.clone() }); }
+        }
+        if out.len() > 40 { return; }
+    }
 }
